@@ -6,7 +6,7 @@ FUNCS = ['RangeProof::verify_batch', 'RangeProof::verify', 'utils::generic::nonc
 
 def cases(tier):
     out = []
-    cfgs = [(8, 1, 1), (2, 2, 1), (64, 1, 2), (1, 6, 1)] if tier == 'quick' else [(8, 1, 1), (2, 2, 1), (64, 1, 2), (1, 6, 1), (4, 3, 4), (16, 4, 1), (32, 5, 2), (64, 6, 1)]
+    cfgs = [(8, 1, 1), (2, 2, 1), (64, 1, 2), (1, 6, 1), (4, 6, 2)] if tier == 'quick' else [(8, 1, 1), (2, 2, 1), (64, 1, 2), (1, 6, 1), (4, 3, 4), (16, 4, 1), (32, 5, 2), (64, 6, 1)]
     tampers = [None, {'op': 'scalar_add_delta', 'elem': 0}, {'op': 'point_add_delta_basis', 'elem': 'A', 'basis': {'b': 'h'}}, {'op': 'scalar_add_delta', 'elem': 'r1'}]
     for (n, x, cap) in cfgs:
         for ti, t in enumerate(tampers):
